@@ -4,6 +4,7 @@ import base64
 import copy
 import json
 import os
+import re
 from urllib.parse import urlencode
 
 from harness.lib import sx as SX
@@ -906,13 +907,19 @@ def _sx_obj(c):
 
 
 REQID_CAP = "X-request-id"
+_GEN_ID = re.compile(r"^[0-9a-f]{8}-0000-0000-0000-[0-9]{12}$")
+
+
+def _is_generated_id(v):
+    """header value in the canonical form of _canon_hval: a str of the shape _generate_request_id produces"""
+    return v[0] == 0 and bool(_GEN_ID.match(SX.unstr(v[1])))
 
 
 def _sx_req(r):
     hs = []
     for k, v in r["headers"]:
-        if k == REQID_CAP:
-            v = [2, []]
+        if k == REQID_CAP and _is_generated_id(v):
+            v = [2, []]          # generated id: presence only (the model's HGenId); a caller-supplied id is compared
         hs.append([SX.s(k), v])
     hs.sort(key=lambda kv: kv[0])
     return [SX.s(r["url"]), SX.s(r["method"]), hs, SX.opt(r["data"]), r["resp"]]
